@@ -222,6 +222,10 @@ pub struct RetCase {
     pub value: RV,
     /// `&mut self` receiver instead of `&self`
     pub mut_recv: bool,
+    /// the trait registers a real implementation (unmock_with) and the second-request scenario runs on a
+    /// partial mock: a MATCHED call whose value is used up must still be refused, not passed on
+    #[serde(default)]
+    pub partial_real: bool,
 }
 
 pub const PRELUDE: &str = r#"
@@ -240,10 +244,19 @@ pub fn source(c: &RetCase) -> String {
         "<Unimock as Tr>::m(&u)"
     };
     let mut s = String::new();
-    s.push_str(&format!(
-        "#[unimock(api=M)]\npub trait Tr {{ fn m({recv}) -> {}; }}\n\n",
-        c.ty.ret_ty()
-    ));
+    if c.partial_real {
+        let self_ty = if c.mut_recv { "&mut Unimock" } else { "&Unimock" };
+        s.push_str(&format!(
+            "#[unimock(api=M, unmock_with=[real_m])]\npub trait Tr {{ fn m({recv}) -> {}; }}\nfn real_m(_u: {self_ty}) -> {} {{ panic!(\"REAL-IMPLEMENTATION-REACHED\") }}\n\n",
+            c.ty.ret_ty(),
+            c.ty.ret_ty()
+        ));
+    } else {
+        s.push_str(&format!(
+            "#[unimock(api=M)]\npub trait Tr {{ fn m({recv}) -> {}; }}\n\n",
+            c.ty.ret_ty()
+        ));
+    }
     s.push_str(&format!(
         "fn conf() -> {} {{ {expr} }}\n\n",
         c.ty.owned_ty()
@@ -277,9 +290,11 @@ pub fn source(c: &RetCase) -> String {
         s.push_str("    let multi = String::new();\n    let twice = String::new();\n");
     }
     // second request on the single-use path (unordered): value again, or a panic
-    s.push_str("    let second = {\n        let mut u = Unimock::new(M::m.some_call(matching!()).returns(conf())).no_verify_in_drop();\n");
-    s.push_str(&format!("        let a = std::panic::catch_unwind(std::panic::AssertUnwindSafe(|| format!(\"{{:?}}\", {call}))).unwrap_or_else(|_| \"PANIC\".to_string());\n"));
-    s.push_str(&format!("        let b = std::panic::catch_unwind(std::panic::AssertUnwindSafe(|| format!(\"{{:?}}\", {call}))).unwrap_or_else(|_| \"PANIC\".to_string());\n"));
+    let ctor = if c.partial_real { "new_partial" } else { "new" };
+    s.push_str(&format!("    let second = {{\n        let mut u = Unimock::{ctor}(M::m.some_call(matching!()).returns(conf())).no_verify_in_drop();\n"));
+    let on_panic = "unwrap_or_else(|p| if p.downcast_ref::<&str>().map(|m| m.contains(\"REAL-IMPLEMENTATION\")).unwrap_or(false) || p.downcast_ref::<String>().map(|m| m.contains(\"REAL-IMPLEMENTATION\")).unwrap_or(false) { \"REAL\".to_string() } else { \"PANIC\".to_string() })";
+    s.push_str(&format!("        let a = std::panic::catch_unwind(std::panic::AssertUnwindSafe(|| format!(\"{{:?}}\", {call}))).{on_panic};\n"));
+    s.push_str(&format!("        let b = std::panic::catch_unwind(std::panic::AssertUnwindSafe(|| format!(\"{{:?}}\", {call}))).{on_panic};\n"));
     s.push_str("        format!(\"{}\\u{2}{}\", a, b)\n    };\n");
     s.push_str("    format!(\"{}\\u{1}{}\\u{1}{}\\u{1}{}\\u{1}{}\", configured, single, multi, twice, second)\n}\n");
     s
@@ -328,6 +343,11 @@ pub fn judge(c: &RetCase, line: &str) -> Result<CaseInfo, String> {
         ));
     }
     match (owned_present, second.get(1)) {
+        (true, Some(&"REAL")) => {
+            return Err(format!(
+                "fn m() -> {ty}: some_call(..).returns({expected}) on a partial mock: the second request for the used-up value was passed on to the real implementation instead of being refused"
+            ))
+        }
         (true, Some(&"PANIC")) => {}
         (true, other) => {
             return Err(format!(
@@ -348,6 +368,7 @@ pub fn judge(c: &RetCase, line: &str) -> Result<CaseInfo, String> {
         .class_if(c.ty.depth() >= 3, "depth-3")
         .class_if(!c.ty.is_clone(), "non-Clone-leaf(single-use only)")
         .class_if(!c.ty.has_borrow(), "all-owned")
+        .class_if(c.partial_real, "second-request-on-a-partial-mock-with-real-implementation")
         .class_if(
             owned_present && c.ty.has_borrow(),
             "owned-leaf-instance-in-mixed-value",
@@ -490,8 +511,9 @@ pub fn case_strategy() -> impl Strategy<Value = RetCase> {
         type_strategy(),
         proptest::collection::vec(any::<u8>(), 40),
         any::<bool>(),
+        proptest::bool::weighted(0.4),
     )
-        .prop_map(|(ty, sel, mut_recv)| {
+        .prop_map(|(ty, sel, mut_recv, partial_real)| {
             let mut it = sel.into_iter();
             let mut counter = 0;
             let value = value_for(&ty, &mut it, &mut counter);
@@ -499,6 +521,7 @@ pub fn case_strategy() -> impl Strategy<Value = RetCase> {
                 ty,
                 value,
                 mut_recv,
+                partial_real,
             }
         })
 }
